@@ -165,9 +165,12 @@ def run(ctx):
     elif quick:
         args += ["--nconc", "20", "--npairs", "6"]
     else:
-        args += ["--nconc", "240", "--npairs", "-1"]
+        # all pairs of crash points of the primary module shape, 300 sampled pairs for the two other shapes,
+        # 240 concurrent histories; VERIF_C16_THOROUGH="<nconc>,<npairs>" scales this down on an overloaded machine
+        nconc, npairs = (os.environ.get("VERIF_C16_THOROUGH") or "240,-1").split(",")
+        args += ["--nconc", nconc, "--npairs", npairs]
     lap("build_harness")
-    vlib.run(args, timeout=3000, stderr=None)
+    vlib.run(args, timeout=3000 if quick else 12000, stderr=None)
     lap("histories_under_tracer")
     cases = open(os.path.join(ctx.work, "cases.txt")).read().split("\n")[:-1]
     impl = open(os.path.join(ctx.work, "impl.txt")).read().split("\n")[:-1]
